@@ -42,6 +42,27 @@ type runtimeContextManager struct {
 
 	weakRefPool luagc.Pool
 	gcPolicy    GCPolicy
+
+	// Which hard limits caused this context to be terminated (if any).
+	limitsHit limitKind
+}
+
+type limitKind uint8
+
+const (
+	cpuLimitHit limitKind = 1 << iota
+	memLimitHit
+	timeLimitHit
+)
+
+// inheritedLimitHit returns true if the child context c was terminated because
+// it reached a hard limit that was simply what m (its parent) had left: in
+// that case m has run out of that resource too.
+func (m *runtimeContextManager) inheritedLimitHit(c *runtimeContextManager) bool {
+	left := m.hardLimits.Remove(m.usedResources)
+	return c.limitsHit&cpuLimitHit != 0 && m.hardLimits.Cpu > 0 && c.hardLimits.Cpu >= left.Cpu ||
+		c.limitsHit&memLimitHit != 0 && m.hardLimits.Memory > 0 && c.hardLimits.Memory >= left.Memory ||
+		c.limitsHit&timeLimitHit != 0 && m.hardLimits.Millis > 0 && c.hardLimits.Millis >= left.Millis
 }
 
 var _ RuntimeContext = (*runtimeContextManager)(nil)
@@ -111,6 +132,7 @@ func (m *runtimeContextManager) PushContext(ctx RuntimeContextDef) {
 	m.hardLimits = m.hardLimits.Remove(m.usedResources).Merge(ctx.HardLimits)
 	m.softLimits = m.hardLimits.Merge(m.softLimits).Merge(ctx.SoftLimits)
 	m.usedResources = RuntimeResources{}
+	m.limitsHit = 0
 	m.requiredFlags |= ctx.RequiredFlags
 
 	if ctx.HardLimits.Cpu > 0 {
@@ -153,11 +175,19 @@ func (m *runtimeContextManager) PopContext() RuntimeContext {
 	if mCopy.status == StatusLive {
 		mCopy.status = StatusDone
 	}
+	// A context killed by a limit it only inherited from its parent means the
+	// parent's budget is exhausted as well: the termination cannot be stopped
+	// by the nested context (e.g. a pcall).
+	parentExhausted := mCopy.status == StatusKilled && m.parent.inheritedLimitHit(&mCopy)
 	m.parent.RequireCPU(m.usedResources.Cpu)
 	m.parent.RequireMem(m.usedResources.Memory)
 	*m = *m.parent
 	if m.trackTime {
 		m.updateTimeUsed()
+	}
+	if parentExhausted {
+		m.limitsHit |= mCopy.limitsHit
+		m.TerminateContext("limit inherited by nested context exceeded")
 	}
 	return &mCopy
 }
@@ -177,6 +207,7 @@ func (m *runtimeContextManager) requireCPU(cpuAmount uint64) {
 	}
 	cpuUsed := m.usedResources.Cpu + cpuAmount
 	if atLimit(cpuUsed, m.hardLimits.Cpu) {
+		m.limitsHit |= cpuLimitHit
 		m.TerminateContext("CPU limit of %d exceeded", m.hardLimits.Cpu)
 	}
 	if m.trackTime && m.nextCpuThreshold <= cpuUsed {
@@ -205,6 +236,7 @@ func (m *runtimeContextManager) requireMem(memAmount uint64) {
 	}
 	memUsed := m.usedResources.Memory + memAmount
 	if atLimit(memUsed, m.hardLimits.Memory) {
+		m.limitsHit |= memLimitHit
 		m.TerminateContext("memory limit of %d exceeded", m.hardLimits.Memory)
 	}
 	m.usedResources.Memory = memUsed
@@ -259,6 +291,7 @@ func (m *runtimeContextManager) UnusedMem() uint64 {
 func (m *runtimeContextManager) updateTimeUsed() {
 	m.usedResources.Millis = now() - m.startTime
 	if atLimit(m.usedResources.Millis, m.hardLimits.Millis) {
+		m.limitsHit |= timeLimitHit
 		m.TerminateContext("time limit of %d exceeded", m.hardLimits.Millis)
 	}
 }
